@@ -308,7 +308,15 @@ func c19Families(ad c19Addrs, thorough bool) []c19Family {
 		multi [][][2]string // simultaneous changes
 	}{
 		{"send", []c19Msg{send(ad.A, ad.B, "1000")}, [][2]string{{"msg0.from", "msg0.to"}, {"msg0.amount", "sequence"}, {"msg0.denom", "fee_denom"}},
-			[][][2]string{{{"msg0.amount2", "5"}, {"msg0.denom2", "zzz"}}, {{"fee_amount2", "5"}, {"fee_denom2", "zzz"}}, {{"fee_amount", ""}, {"fee_denom", ""}}}},
+			[][][2]string{{{"msg0.amount2", "5"}, {"msg0.denom2", "zzz"}}, {{"fee_amount2", "5"}, {"fee_denom2", "zzz"}}, {{"fee_amount", ""}, {"fee_denom", ""}},
+				// coin lists that are not in sdk.NewCoins form: a zero-amount coin beside / instead of the fee, the two-coin fee in the other order
+				{{"fee_amount2", "0"}, {"fee_denom2", "zzz"}},
+				{{"fee_amount", "0"}},
+				{{"fee_amount", "5"}, {"fee_denom", "zzz"}, {"fee_amount2", "2000000000000000"}, {"fee_denom2", "wei"}},
+				{{"fee_amount2", "3"}, {"fee_denom2", "aaa"}},
+				{{"fee_amount", "3"}, {"fee_denom", "aaa"}, {"fee_amount2", "2000000000000000"}, {"fee_denom2", "wei"}},
+				{{"msg0.amount2", "0"}, {"msg0.denom2", "zzz"}},
+				{{"msg0.amount", "5"}, {"msg0.denom", "zzz"}, {"msg0.amount2", "1000"}, {"msg0.denom2", "wei"}}}},
 		{"delegate", []c19Msg{{Kind: "delegate", F: map[string]string{"delegator": ad.A, "validator": ad.ValA, "amount": "1000", "denom": "wei"}}}, nil, nil},
 		{"send+send", []c19Msg{send(ad.A, ad.B, "1000"), send(ad.A, ad.C, "2000")},
 			[][2]string{{"msg0.to", "msg1.to"}, {"msg0.amount", "msg1.amount"}},
